@@ -5,7 +5,7 @@ M = "xhair.obl.c19"
 
 def x_obligations(tier):
     o = []
-    T = 170 if tier == "quick" else 1200
+    T = 170 if tier == "quick" else 600
     Ls = [2, 3, 4] if tier == "quick" else [2, 3, 4, 5, 6, 9]
     for L in Ls:
         for oi in range(4):
